@@ -347,6 +347,35 @@ PROPS = {
             'ChildrenWatch callback is not re-entered); EventMgr.run / _cache_notify (ready marker) not under contract',
         ],
     },
+    'C13': {
+        'contract_modules': ['c13_appcfgmgr'],
+        'functions': ['treadmill.appcfgmgr:AppCfgMgr._terminate', 'treadmill.appcfgmgr:AppCfgMgr._configure',
+                      'treadmill.appcfgmgr:AppCfgMgr._on_created', 'treadmill.appcfgmgr:AppCfgMgr._on_deleted'],
+        'replay': 'c13.py',
+        'extra': [('bounded:manager-histories', bounded_replay('c13.py', 'C13', 'AppCfgMgr event histories incl. _synchronize on a real directory tree', 1500, 60000))],
+        'assumptions': [
+            'PROVED (for every file-system state): AppCfgMgr._terminate, _configure, _on_created, _on_deleted keep "a container '
+            'directory is the target of at most one link of running/ and cleanup/" (one_link), move a terminated instance\'s '
+            'link to cleanup and touch nothing else, leave a running instance alone on a repeated created event, do nothing '
+            'while inactive; fs.replace / fs.symlink_safe / fs.rm_safe are the real code, executed over the ghost file system',
+            'NOT under contract: AppCfgMgr._synchronize (three-way reconciliation over the listings of apps/ and cache/): '
+            'BOUNDED stand-in only (labelled bounded, never counted as proved) - replay/c13.py drives the real manager through '
+            'random histories of place / evict / finish / cleanup-done / manager restart / ready-file flips on a temporary '
+            'treadmill root and checks O1..O5 of its docstring after every event; _first_sync enters the handler proofs as an '
+            'assumed summary (keeps one_link)',
+            'file-system dependency contract (pyvc/engine_fs.py): (directory, name) paths, symlink / readlink / unlink / '
+            'rename(2) (os.replace: atomic, ENOENT when the source is missing) / tempfile.mktemp (some absent name); '
+            'sys.version_info >= 3 (fs.replace takes the os.replace branch)',
+            'dependency contracts (assumed): app_cfg.configure returns apps/<unique name of the event file> or None and '
+            'creates no link in running/ or cleanup/; report_aborted, utils.touch, supervisor.control_svscan do not touch the '
+            'two link directories; a created event is delivered for a new cache file whose unique name (inode, ctime) is not '
+            'yet the target of any link (precondition of _on_created); container_of(instance) is the unique name of the '
+            'current cache file (C15 decides the encoding)',
+            'schedules: one handler at a time (the DirWatcher loop is sequential); the monitor\'s and the cleanup '
+            'service\'s moves between two handler calls are covered by quantifying over every file-system state that '
+            'satisfies one_link, interleaving inside a handler is not covered',
+        ],
+    },
     'C14': {
         'contract_modules': ['c14_vipfile', 'c14_rules_endpoints'],
         'functions': ['treadmill.vipfile:VipMgr._alloc', 'treadmill.vipfile:VipMgr.alloc', 'treadmill.vipfile:VipMgr.free',
